@@ -10,6 +10,7 @@ zeros afterwards (`freed_blocks_are_all_zeros`), and truncation writes nothing b
 -/
 import GoNfsd.Lemmas.FsStep
 import GoNfsd.Lemmas.InoOps
+import GoNfsd.Lemmas.FileDataBridge
 
 namespace GoNfsd.Props.C12
 open GoNfsd.Model.Fs GoNfsd.Gen.Consts
@@ -116,5 +117,81 @@ open GoNfsd.Model.BlockMap in
 theorem truncation_only_zeroes (s : S) (blks : List Nat) (T N y x : Nat) :
     (shrinkTo s blks T N).1.st y x = s.st y x ∨ (shrinkTo s blks T N).1.st y x = 0 :=
   shrinkTo_cells T N s blks y x
+
+/-! ### at the byte level of the blocks (model M7d): the data path of Write / Read / Resize
+
+A file as disk blocks: a map from file blocks to disk blocks (the pointer tree of M7 read at its
+data positions: `pointer_tree_step_is_the_mapping_step`), the bytes of the blocks, a size.  The
+three theorems below say that this file shows, byte for byte, what the content log of the
+reference model M6 says — whose READ replies the correspondence compares with the server. -/
+section blocks
+open GoNfsd.Model.FileData
+
+/-- A WRITE shows exactly its bytes and moves no other byte — not in the blocks it fills, not in
+    the blocks it maps (they come zeroed from the allocator), not in the gap it may leave behind
+    the old end of the file — for every offset, length, block layout and set of holes. -/
+theorem block_level_write_shows_exactly_its_bytes (f : F) (fresh : Nat → Nat) (off : Nat)
+    (bytes : List UInt8) (h : Inv f) (hf : FreshOK f fresh) (p : Nat) :
+    (f.write fresh off bytes).byte p =
+      if off ≤ p ∧ p < off + bytes.length then bytes.getD (p - off) 0 else f.byte p :=
+  write_byte f fresh off bytes h hf p
+
+/-- A truncation cuts the file off — also INSIDE the last block, whose rest is cleared — and growing
+    a file exposes zeros: never what the blocks held before. -/
+theorem block_level_resize_cuts_and_exposes_zeros (f : F) (n : Nat) (h : Inv f) (p : Nat) :
+    (f.resize n).byte p = if n ≤ p then 0 else f.byte p := resize_byte f n h p
+
+/-- A READ over holes maps them (the code allocates in `Read`): what it maps is all zeros, so no
+    byte of the file changes — the READ, and every later one, sees zeros there. -/
+theorem block_level_hole_filling_changes_no_byte (f : F) (fresh : Nat → Nat) (i : Nat) (h : Inv f)
+    (hf : FreshOK f fresh) :
+    Inv (f.ensure i (fresh i)) ∧ ∀ p, (f.ensure i (fresh i)).byte p = f.byte p := by
+  have hs : (f.ensure i (fresh i)).size = f.size := by unfold F.ensure; split <;> rfl
+  refine ⟨⟨ensure_inj f fresh i h.inj hf, fun p hp => ?_⟩, fun p => ?_⟩
+  · rw [ensure_cell f fresh i hf p]; exact h.tail p (by rw [hs] at hp; exact hp)
+  · unfold F.byte; rw [hs, ensure_cell f fresh i hf p]
+
+/-- ... and both keep the invariant they need (no block serves two file blocks; beyond the size
+    the file's blocks hold zeros), so the statements compose over any history. -/
+theorem block_level_invariant_is_kept (f : F) (h : Inv f) :
+    (∀ fresh off bytes, FreshOK f fresh → Inv (f.write fresh off bytes)) ∧ (∀ n, Inv (f.resize n)) :=
+  ⟨fun fresh off bytes hf => write_inv f fresh off bytes h hf, fun n => resize_inv f n h⟩
+
+/-- REFINEMENT: after ANY history of writes and size changes the block-level file and the content
+    log of the reference model agree on the size and on every byte, hence on every READ. -/
+theorem block_level_file_refines_the_content_log (ops : List DOp) (hf : FreshAll F.empty ops) :
+    let f := ops.foldl F.apply F.empty
+    let cs := ops.foldl logApply ([], 0)
+    f.size = cs.2 ∧ (∀ p, f.byte p = byteAt cs.1 p) ∧ ∀ off n, f.read off n = readBytes cs.1 off n := by
+  obtain ⟨_, hr⟩ := history_refines ops F.empty ([], 0) empty_inv empty_rel hf
+  exact ⟨hr.1, hr.2, fun off n => read_refines _ _ _ off n hr⟩
+
+open GoNfsd.Model.BlockMap in
+/-- The map M7d works with is M7's pointer tree: one `bmap` (any depth: direct, indirect, double
+    indirect, with whatever index blocks it has to allocate on the way) is one `ensure` — the file
+    block asked for gets the returned block if it was a hole, no other file block moves — and the
+    injectivity M7d needs is part of M7's well-formedness. -/
+theorem pointer_tree_step_is_the_mapping_step (s : S) (blks : List Nat) (bn : Nat)
+    (data : Nat → Nat → UInt8) (size : Nat) (h : WFB s blks) (hbn : bn < MAXB) :
+    (F.mk (mapOf (bmap s blks bn).1 (bmap s blks bn).2.1) data size).map =
+      ((F.mk (mapOf s blks) data size).ensure bn (bmap s blks bn).2.2.1).map ∧
+    Inj (F.mk (mapOf s blks) data size) :=
+  ⟨bmap_refines_ensure s blks bn data size h hbn, inj_of_WFB s blks data size h⟩
+
+/-- Non-vacuity: the shape of the seeded change C12h — write, cut INSIDE the block, grow — with an
+    allocator stream that satisfies the hypotheses: the re-exposed position reads zero. -/
+def h12 : List DOp := [.write (fun i => 100 + i) 0 #[0xe2, 0xe2, 0xe2, 0xe2, 0xe2, 0xe2, 0xe2, 0xe2], .resize 5, .resize 20]
+example : FreshAll F.empty h12 := by
+  refine ⟨?_, trivial, trivial, trivial⟩
+  intro i _
+  refine ⟨?_, fun j => ?_, fun o => rfl, fun j _ e => ?_⟩
+  · show 100 + i ≠ 0; omega
+  · show (0 : Nat) ≠ 100 + i; omega
+  · have e' : 100 + j = 100 + i := e
+    omega
+example : ((h12.foldl F.apply F.empty).byte 6, (h12.foldl F.apply F.empty).byte 3) = (0, 0xe2) := by
+  decide
+
+end blocks
 
 end GoNfsd.Props.C12
